@@ -101,6 +101,8 @@ structure Res where
   cg : Nat → Nat → Nat → Bool
   reach : Nat → Bool
   heap : Label → List Label
+  /-- `Result.IndirectQueries[v].PointsTo().Labels()` : (function, register, labels of `*v`) -/
+  iq : List (Nat × Nat × List Label) := []
 
 /-- the cell named by selector `s` inside the object part labelled `l` -/
 def ext (l : Label) (s : ASel) : Label := (l.1, l.2 ++ [s])
@@ -226,6 +228,10 @@ def instrOK (P : Prog) (R : Res) (f : Nat) : Instr → Bool
 /-- `Ptr.closed`: every instruction of every reachable function satisfies its inclusion rule -/
 def ptrClosed (P : Prog) (R : Res) : Bool :=
   (List.range P.funcs.size).all fun f => !R.reach f || (P.code f).all (instrOK P R f)
+
+/-- `IndirectQueries`: the set recorded for `*v` contains the derived heap table at every label of `v` -/
+def iqClosed (R : Res) : Bool :=
+  R.iq.all fun e => !R.reach e.1 || srcs (R.pt e.1 e.2.1) fun S => S.all fun l => subL (R.heap l) e.2.2
 
 /-- may-alias on label sets (the public `Pointer.MayAlias` intersects node sets) -/
 def mayAlias (A B : List Label) : Bool := A.any fun l => B.contains l
